@@ -144,7 +144,11 @@ func scenarioC18(c *hlib.RunCtx) *hlib.Violation {
 	}
 	nops := 4 + t.Draw(16)
 	var ops []string
-	c.Note("nontrivial")
+	defer func() {
+		if len(model) > 0 {
+			c.Note("nontrivial") // at least one object was written
+		}
+	}()
 	for i := 0; i < nops && viol == nil; i++ {
 		if t.Bool(1, 8) {
 			// the service restarts: a new handle over the same directory
